@@ -232,6 +232,24 @@ pub fn reuse_part(deadline: &Deadline) -> Stats {
     })
 }
 
+/// Unusual but legal ways of consuming the iterator: `nth(k)` / `skip` / `step_by` over the curated
+/// programs, against a device that answers differently at every call, without and with one fault.
+pub fn api_use_part(deadline: &Deadline) -> Stats {
+    let progs = programs();
+    par_range("iterator advanced with nth(1..3): 13 curated programs x 2 driver variants x {no fault, fault at call 1..6}", progs.len() as u64 * 2 * 7, deadline, |u, st| {
+        let p = &progs[(u / 14) as usize];
+        let ov = u % 2 == 0;
+        let fault_at = ((u / 2) % 7) as usize;
+        let prog = Program { header: p.header.iter().map(|s| s.to_string()).collect(), body: p.body.clone() };
+        let text = text(&prog);
+        let outs: Vec<String> = p.sigs.iter().filter(|s| s.is_out()).map(|s| s.name.clone()).collect();
+        let script: Vec<Step> = (0..60usize)
+            .map(|j| if fault_at > 0 && j == fault_at { Step::Fault(90) } else { Step::Ans(outs.iter().enumerate().map(|(i, n)| (n.clone(), V::Num(((j * (3 + 2 * i) + 1 + i) % 16) as i64))).collect()) })
+            .collect();
+        check_nth(st, u, &format!("program '{}', driver {} write_input, fault at call {}", p.name, if ov { "overrides" } else { "does not override" }, if fault_at > 0 { fault_at.to_string() } else { "none".into() }), &text, &p.sigs, ov, &script, 24);
+    })
+}
+
 pub fn run(tier: Tier, seed: u64) -> i32 {
     let started = Instant::now();
     let deadline = Deadline::new(tier.wall_cap());
@@ -298,6 +316,7 @@ pub fn run(tier: Tier, seed: u64) -> i32 {
     st.nontrivial = st.states;
     validate_key(&mut st, &res.keys, slice, oracle(), &deadline);
     st.merge(reuse_part(&deadline));
+    st.merge(api_use_part(&deadline));
     st.sample(|| json!({"cases": ncases, "deviation_kinds": deviations(&["Q".to_string(), "R".to_string(), "S".to_string()], &["Q".to_string(), "R".to_string(), "S".to_string()]).iter().map(|d| d.0.clone()).collect::<Vec<_>>()}));
     let meta = CheckMeta {
         id: "C13",
@@ -308,7 +327,7 @@ pub fn run(tier: Tier, seed: u64) -> i32 {
             "rows before the deviation are compared with the reference interpreter's fault-free run; the attribution rule is checked against the driver's own log for every returned row".into(),
             "a layout deviation in the discarded answer of a mid-clock call (driver without write_input override) is not specified by the property and is not injected".into(),
         ],
-        required_witnesses: vec!["fault_at_the_constructor_call", "fault_at_an_output_reading_call", "fault_at_a_write_only_call", "layout_deviation_at_a_checked_row", "returned_row_attribution_checked", "one_loaded_test_used_twice_with_different_drivers", "second_deviation_of_a_history"],
+        required_witnesses: vec!["fault_at_the_constructor_call", "fault_at_an_output_reading_call", "fault_at_a_write_only_call", "layout_deviation_at_a_checked_row", "returned_row_attribution_checked", "one_loaded_test_used_twice_with_different_drivers", "second_deviation_of_a_history", "iterator_advanced_with_nth"],
         exhaustive_note: "every call index x every deviation for every case".into(),
         e1: true,
     };
